@@ -29,6 +29,7 @@ var propID = gov.PID("c20-price-change")
 const (
 	nameA = "a.ol"
 	nameB = "b.a.ol"
+	nameC = "c.a.ol" // a second sub-name: sorts after b.a.ol in the store's (reversed-name) key order
 )
 
 type opKind int
@@ -145,6 +146,7 @@ var (
 	oCreateB   = op{Name: "create(B,a.ol,12)", Kind: opCreate, Actor: 1, Domain: nameA, Price: 12, Benef: 1, Legit: true, MinDepth: 1}
 	oCreateA10 = op{Name: "create(A,a.ol,10=base)", Kind: opCreate, Actor: 0, Domain: nameA, Price: 10, Benef: 0}
 	oSubA      = op{Name: "create(A,b.a.ol,11)", Kind: opCreate, Actor: 0, Domain: nameB, Price: 11, Benef: 1, Legit: true, MinDepth: 2}
+	oSubC      = op{Name: "create(A,c.a.ol,11)", Kind: opCreate, Actor: 0, Domain: nameC, Price: 11, Benef: 0, Legit: true, MinDepth: 2}
 	oSubB      = op{Name: "create(B,b.a.ol,11)", Kind: opCreate, Actor: 1, Domain: nameB, Price: 11, Benef: 1, Legit: true, MinDepth: 2}
 	oUpdA      = op{Name: "update(A,a.ol,benef=C)", Kind: opUpdate, Actor: 0, Domain: nameA, Benef: 2, Active: true, Legit: true, MinDepth: 2}
 	oUpdB      = op{Name: "update(B,a.ol,benef=B)", Kind: opUpdate, Actor: 1, Domain: nameA, Benef: 1, Active: true, Legit: true, MinDepth: 2}
@@ -191,12 +193,19 @@ func Events(tier string) []event {
 		pair(oSellA, oBuyB12),    // put on sale and bought in one block
 		pair(oBuyB15, oBuyA15),   // two buyers in one block
 		pair(oCreateA, oCreateB), // two creators of one name in one block
+		// two sub-names, and an operation on the parent in the same block in which one of them was deleted
+		// (the walk over the sub-names meets a record deleted in this very block). Added after a seeded
+		// change - the sub-name walk stopping at the first undecodable record - escaped the one-sub-name alphabet.
+		pair(oSubA, oSubC),
+		pair(oDelSubA, oRenewA),
 	}
 	if tier == "thorough" {
 		ev = append(ev,
 			single(oCreateA10), single(oDeactNil), single(oUpdSubB), single(oBuyBNil), single(oBuySub), single(oDelAllA),
 			pair(oRenewA, oSendA),
 			pair(oSubA, oSendSub),
+			pair(oDelSubA, oDeactA),
+			pair(oDelSubA, oSellA),
 		)
 	}
 	return ev
